@@ -262,11 +262,19 @@ impl<'a> Mutator<'a> {
         match t {
             Ty::Bool => Some(Pat::Bool(self.rng.bool())),
             // (one value, or everything but the smallest / the largest value)
-            Ty::Int(it) => Some(match self.rng.below(4) {
+            Ty::Int(it) => Some(match self.rng.below(7) {
                 0 => Pat::Int(5.min(it.max_val())),
                 1 => Pat::Range(it.min_val() + 1, it.max_val(), false),
                 2 => Pat::Range(it.min_val(), it.max_val() - 1, false),
-                _ => Pat::Range(it.min_val(), it.max_val() - 1, true),
+                3 => Pat::Range(it.min_val(), it.max_val() - 1, true),
+                // (from a small positive number up to the largest value)
+                4 => Pat::Range(*self.rng.pick(&[1i128, 2, 3, 100]), it.max_val(), false),
+                // (from the smallest value up to a number around zero)
+                5 => Pat::Range(it.min_val(), (*self.rng.pick(&[-1i128, 0, 1, 5])).max(it.min_val()), false),
+                _ => {
+                    let a = self.rng.below(100) as i128;
+                    Pat::Range(a, a + self.rng.below(27) as i128, false)
+                }
             }),
             Ty::Enum(ei) if self.defs.enums[*ei].variants.len() >= 2 => {
                 let vi = self.rng.usize_below(self.defs.enums[*ei].variants.len());
